@@ -273,6 +273,11 @@ HandleTightBPP (rfbClient* client, int rx, int ry, int rw, int rh)
 	rfbClientErr("Received uncompressed byte count exceeds our buffer size.\n");
 	return FALSE;
     }
+    /* the filter consumes rh rows: exactly that much must have been sent */
+    if (compressedLen != rh * rowSize) {
+	rfbClientErr("Received uncompressed byte count does not match the rectangle.\n");
+	return FALSE;
+    }
 
     if (!ReadFromRFBServer(client, (char*)client->buffer, compressedLen))
       return FALSE;
